@@ -38,6 +38,8 @@ TEMPLATES = [
     # the error is one template 8 (a caller that catches) handles
     "def {n}(x):\n    if x == {k} % 3:\n        raise TypeError('outside the domain')\n    return {a}(x) + {k}",
     "def {n}(x):\n    if x == {k} % 3:\n        raise TypeError('outside the domain')\n    return {r} + x",
+    # a cells of a child space reading a cells of the PARENT space by attribute path (`_space.parent.rate(x)`)
+    "def {n}(x): return _space.parent.{a}(x) + {k}",
 ]
 N_BASE_TEMPLATES = 11
 
@@ -74,7 +76,7 @@ def formula_src(name, t):
 
 
 NEEDS = [set(), {"a"}, {"r"}, {"c", "cr"}, {"c", "ca"}, {"a"}, {"r"}, {"u"}, {"a"}, {"ro"}, {"ci"},
-         {"a", "c", "cr"}, {"a", "r"}, {"a"}, {"r"}]
+         {"a", "c", "cr"}, {"a", "r"}, {"a"}, {"r"}, {"pa"}]
 
 
 def gen_formula(rng, spaces, space=None, ext=False):
@@ -107,6 +109,14 @@ def gen_formula(rng, spaces, space=None, ext=False):
         have |= {"c", "cr"}
     if ch_cells:
         have |= {"c", "ca"}
+    pcells = []
+    if ext:
+        try:
+            pcells = list(space.parent.cells) if "." in space.fullname.split(".", 1)[-1] else []
+        except Exception:   # noqa
+            pcells = []
+        if pcells:
+            have.add("pa")
     ok = [i for i in range(n_templates) if NEEDS[i] <= have]
     i = rng.choice(ok)
     a = rng.choice(cells) if cells else rng.choice(CELLS)
@@ -121,6 +131,8 @@ def gen_formula(rng, spaces, space=None, ext=False):
     if i == 10:
         c, a = rng.choice(ch_item)
         return (i, rng.randint(0, 1), a, r, c)
+    if i == 15:
+        a = rng.choice(pcells)
     return (i, rng.randint(1, 5), a, r, c)
 
 
